@@ -24,6 +24,9 @@ func init() {
 
 func runC13(p *eng.Prog, r *eng.Report, tier string) {
 	c := &cx{p, r, tier}
+	r19WrapPassesThePayloadOn(c, "C13.44")
+	r19FromIndependentOfTo(c, "C13.45")
+	r19FirstConditionWins(c, "C13.43")
 	r18ConditionDefaultedWhereItIsWritten(c, "C13.42")
 	r17RawTokenReaderStateless(c, "C13.41")
 	r17StanzaTypesAreNotMarshalers(c, "C13.40")
